@@ -361,7 +361,7 @@ CLAIMS = {
         text=("Theorems (lean/RNacos/Props/C11.lean + Lemmas/{NamingSvc,Naming}.lean): an invariant preserved by every "
               "registry operation (register/update from HTTP, gRPC, cluster sync with any update tag, deregistration "
               "with any client id, client removal, time checks at any times, console removal, empty-service clean-up, the apply of a "
-              "committed Raft removal, a peer's digest of its gRPC connections) and "
+              "committed Raft removal, a peer's digest of its gRPC connections, the result of a host probe) and "
               "hence true in every reachable state (inv_reachable): instance count = number of instances, healthy count "
               "= number of healthy ones (counters_exact), persistent set = non-ephemeral instances "
               "(persistent_set_exact), every service listed exactly once (index_exact), every instance recorded for a "
